@@ -95,10 +95,29 @@ def frag_specs(E, g, data, md, fs, hdr, lh):
     B1 = I(fs) - hdr - (3 if lh else 0)
     Bn = I(fs) - 6 - (3 if lh else 0)
 
+    names = {}
+
+    def budget_attr(s, name, value, ctx):
+        """the fragmenter attribute that holds this budget: by its name, else (renamed) the one int attribute that __init__ set
+        to exactly this value - decided once, at loop entry, and then required to keep the value"""
+        if name in s.attrs:
+            return name
+        if name not in names:
+            if ctx.phase != 'entry':
+                raise Unsupported('contract out of date: no attribute of FrameFragmenter plays the role of %r' % name)
+            known = ('first_fragment_size_bytes', 'next_frame_header_size', '_data_length', '_metadata_length',
+                     '_data_read_length', '_metadata_read_length')
+            cands = [k for k, v in s.attrs.items() if k not in known and k not in names.values() and isinstance(v, (int, SInt))
+                     and not isinstance(v, bool) and E.path.check(I(v) != value) == z3.unsat]
+            if len(cands) != 1:
+                raise Unsupported('contract out of date: no attribute of FrameFragmenter plays the role of %r' % name)
+            names[name] = cands[0]
+        return names[name]
+
     def common(ctx):
         s = ctx.self
-        return [('first fragment budget = size - header - 3*length_header', I(s.attrs['first_fragment_size_bytes']) == B1),
-                ('later fragment budget = size - 6 - 3*length_header', I(s.attrs['next_frame_header_size']) == Bn),
+        return [('first fragment budget = size - header - 3*length_header', I(s.attrs[budget_attr(s, 'first_fragment_size_bytes', B1, ctx)]) == B1),
+                ('later fragment budget = size - 6 - 3*length_header', I(s.attrs[budget_attr(s, 'next_frame_header_size', Bn, ctx)]) == Bn),
                 ('recorded lengths', z3.And(I(s.attrs['_data_length']) == dlen, I(s.attrs['_metadata_length']) == mlen))]
 
     # ---- loop 0: metadata
